@@ -237,7 +237,7 @@ Section BinOps.
   Proof.
     intros Hb. unfold eq_m, a, b. cbv zeta. rewrite to_common_m_spec by assumption. cbn [bind].
     destruct (scaled_values n1 d1 n2 d2 c1 c2 Hp1 Hp2) as (K & l & HK & Hl & Ex & Ey).
-    unfold eq_spec. f_equal. eapply scaled_eq; eassumption.
+    unfold eq_spec. f_equal. exact (scaled_eq _ _ _ _ K l HK Hl Ex Ey).
   Qed.
 
   Lemma lt_m_spec c1 c2 : both_ok w1 n1 d1 w2 n2 d2 c1 c2 = true ->
@@ -245,7 +245,7 @@ Section BinOps.
   Proof.
     intros Hb. unfold lt_m, a, b. cbv zeta. rewrite to_common_m_spec by assumption. cbn [bind].
     destruct (scaled_values n1 d1 n2 d2 c1 c2 Hp1 Hp2) as (K & l & HK & Hl & Ex & Ey).
-    unfold lt_spec. f_equal. eapply scaled_lt; eassumption.
+    unfold lt_spec. f_equal. exact (scaled_lt _ _ _ _ K l HK Hl Ex Ey).
   Qed.
 
   Lemma div_m_spec c1 c2 : div_ok w1 n1 d1 w2 n2 d2 c1 c2 = true ->
@@ -257,7 +257,7 @@ Section BinOps.
     destruct (tk_facts n1 d1 n2 d2 Hp1 Hp2) as (_ & _ & _ & _ & _ & _ & _ & _ & _ & Ht2).
     assert (Hy : c2 * tk2 n1 d1 n2 d2 <> 0) by nia.
     assert (Eq : Z.quot (c1 * tk1 n1 d1 n2 d2) (c2 * tk2 n1 d1 n2 d2) = div_spec n1 d1 n2 d2 c1 c2).
-    { unfold div_spec. eapply scaled_quot; eassumption. }
+    { unfold div_spec. exact (scaled_quot _ _ _ _ K l HK Hl Ex Ey Hy). }
     unfold div_rep.
     destruct (c2 * tk2 n1 d1 n2 d2 =? 0) eqn:E0; [lia|].
     destruct ((c1 * tk1 n1 d1 n2 d2 =? min_rep (Z.max w1 w2)) && (c2 * tk2 n1 d1 n2 d2 =? -1)) eqn:Em.
@@ -279,7 +279,7 @@ Section BinOps.
     destruct (tk_facts n1 d1 n2 d2 Hp1 Hp2) as (_ & _ & _ & _ & _ & _ & _ & _ & _ & Ht2).
     assert (Hy : c2 * tk2 n1 d1 n2 d2 <> 0) by nia.
     assert (Eq : Z.quot (c1 * tk1 n1 d1 n2 d2) (c2 * tk2 n1 d1 n2 d2) = div_spec n1 d1 n2 d2 c1 c2).
-    { unfold div_spec. eapply scaled_quot; eassumption. }
+    { unfold div_spec. exact (scaled_quot _ _ _ _ K l HK Hl Ex Ey Hy). }
     unfold mod_spec. cbv zeta. rewrite in_common_l, in_common_r.
     unfold rem_rep.
     destruct (c2 * tk2 n1 d1 n2 d2 =? 0) eqn:E0; [lia|].
